@@ -93,7 +93,7 @@ func init() {
 		zz + "PoolGets":     func(fr *frame, a []Value) Value { return fr.x.f.Const(64, uint64(fr.x.poolGets)) },
 		zz + "LocksHeld":    func(fr *frame, a []Value) Value { return fr.x.f.Const(64, uint64(fr.x.cur.held)) },
 		zz + "TrackRelease": func(fr *frame, a []Value) Value { fr.x.trackRelease = a[0].(*Term).IsTrue(); return nil },
-		zz + "Yield":          func(fr *frame, a []Value) Value { return nil },
+		zz + "Yield":        func(fr *frame, a []Value) Value { return nil },
 		// Visible(name): the harness declares an access to a shared object of its own (a recording
 		// destination) a visible operation, so that schedules are explored around it
 		zz + "Visible": func(fr *frame, a []Value) Value {
@@ -103,7 +103,7 @@ func init() {
 		},
 		zz + "RegisterThread": func(fr *frame, a []Value) Value { return nil },
 		zz + "ExpectThread":   func(fr *frame, a []Value) Value { return nil },
-		zz + "Symbolic":     func(fr *frame, a []Value) Value { return fr.x.f.Bool(true) },
+		zz + "Symbolic":       func(fr *frame, a []Value) Value { return fr.x.f.Bool(true) },
 		zz + "SameBacking": func(fr *frame, a []Value) Value {
 			s1, s2 := a[0].(Slice), a[1].(Slice)
 			if cap(s1.v) == 0 || cap(s2.v) == 0 {
@@ -160,12 +160,12 @@ func init() {
 		"math.Float64frombits": func(fr *frame, a []Value) Value { return a[0] },
 		"math.Float32bits":     func(fr *frame, a []Value) Value { return a[0] },
 		"math.Float32frombits": func(fr *frame, a []Value) Value { return a[0] },
-		"math.Trunc":     inTrunc,
-		"math.archTrunc": inTrunc,
-		"math.Floor":     func(fr *frame, a []Value) Value { return fr.x.f.UF("fp_floor", 64, a[0].(*Term)) },
-		"math.archFloor": func(fr *frame, a []Value) Value { return fr.x.f.UF("fp_floor", 64, a[0].(*Term)) },
-		"math.Ceil":      func(fr *frame, a []Value) Value { return fr.x.f.UF("fp_ceil", 64, a[0].(*Term)) },
-		"math.archCeil":  func(fr *frame, a []Value) Value { return fr.x.f.UF("fp_ceil", 64, a[0].(*Term)) },
+		"math.Trunc":           inTrunc,
+		"math.archTrunc":       inTrunc,
+		"math.Floor":           func(fr *frame, a []Value) Value { return fr.x.f.UF("fp_floor", 64, a[0].(*Term)) },
+		"math.archFloor":       func(fr *frame, a []Value) Value { return fr.x.f.UF("fp_floor", 64, a[0].(*Term)) },
+		"math.Ceil":            func(fr *frame, a []Value) Value { return fr.x.f.UF("fp_ceil", 64, a[0].(*Term)) },
+		"math.archCeil":        func(fr *frame, a []Value) Value { return fr.x.f.UF("fp_ceil", 64, a[0].(*Term)) },
 		"math.Abs": func(fr *frame, a []Value) Value {
 			t := a[0].(*Term)
 			return fr.x.f.Bin(OpBAnd, t, fr.x.f.Const(64, ^(uint64(1)<<63)))
@@ -244,13 +244,23 @@ func init() {
 				itf := e.(Iface)
 				s, ok := itf.v.(Str)
 				if !ok {
-					abortf("fmt.Fprint of a non-string operand (%v)", itf.t)
+					// a non-string operand: rendered by fmt, which is outside the engine; one
+					// opaque placeholder byte stands for its text
+					x.noteStub("fmt.Fprint operand of type " + fmt.Sprint(itf.t) + " -> placeholder")
+					out = append(out, x.f.Const(8, '?'))
+					continue
 				}
 				out = append(out, s.b...)
 			}
 			w := a[0].(Iface)
 			if w.t == nil {
 				x.runtimePanic(fr, "invalid memory address or nil pointer dereference (nil io.Writer)")
+			}
+			if strings.HasSuffix(w.t.String(), "os.File") {
+				// os.Stderr / os.Stdout: outside the engine (like fmt.Fprintf to them)
+				x.notes = append(x.notes, "fmt.Fprint to *os.File")
+				x.reached["__fprintf__"] = true
+				return Tuple{x.f.Const(64, 0), Iface{}}
 			}
 			m := x.eng.prog.LookupMethod(w.t, nil, "Write")
 			if m == nil {
@@ -337,8 +347,8 @@ func init() {
 		"internal/bytealg.IndexByte":       inIndexByte,
 		"internal/bytealg.IndexByteString": inIndexByte,
 		"strings.IndexByte":                inIndexByte,
-		"internal/bytealg.CountString": inCount,
-		"internal/bytealg.Count":       inCount,
+		"internal/bytealg.CountString":     inCount,
+		"internal/bytealg.Count":           inCount,
 		"internal/bytealg.Equal": func(fr *frame, a []Value) Value {
 			x := fr.x
 			return x.strEq(Str{x.bytesOf(a[0])}, Str{x.bytesOf(a[1])})
